@@ -115,10 +115,22 @@ def r3(ctx):
     cr = idx(lambda e: e.kind == 'call' and call_attr(e.node) == 'CreateSink')
     if raised and raised[0].info == 'GreenletExit':
       seen['exit'].append(ex[0] in ('ret', 'raise'))
+      if call_attr(raised[0].node) == 'get':
+        # killed while the attempt is in flight: the half-opened sink belongs to nobody any more and must be closed
+        cl = [e for e in ev if e.kind == 'call' and call_attr(e.node) == 'Close']
+        seen.setdefault('exit_closes', []).append(len(cl) == 1)
       continue
     okhead = len(sl) == 1 and [U(a) for a in ev[sl[0]].node.args] == ['wait_interval'] and (not cr or sl[0] < cr[0])
+    fs_ = FACTS(ev)
+    if not raised and (('self._down_on', False) in fs_ or ('notself._down_on', True) in fs_):
+      # Close() ran while the attempt was in flight (it clears the down mark): the fresh sink is closed, not adopted
+      cl = [e for e in ev if e.kind == 'call' and call_attr(e.node) == 'Close']
+      inst = [e for e in ev if e.kind == 'stmt' and isinstance(e.node, ast.Assign) and U(e.node.targets[0]) == 'self.next_sink']
+      seen.setdefault('closed_meanwhile', []).append(len(cl) == 1 and not inst and ex[0] == 'ret')
+      continue
     if not raised:
       # success
+      seen.setdefault('recheck', []).append(('self._down_on', True) in fs_ or ('notself._down_on', False) in fs_)
       w = dict((U(e.node.targets[0]), U(e.node.value)) for e in ev if e.kind == 'stmt' and isinstance(e.node, ast.Assign))
       sub = [e.node for e in ev if e.kind == 'call' and call_attr(e.node) == 'Subscribe' and 'self._OnSinkFaulted' in U(e.node)]
       obs = [e.node for e in ev if e.kind == 'call' and call_attr(e.node) == 'get' and 'Open()' in U(e.node)]
@@ -142,6 +154,13 @@ def r3(ctx):
          'success paths: %s' % seen['success'], why)
   ctx.ob('C09.R3', f, 'failure: close the attempt, grow the wait, cap it with min(wait, max), loop again', bool(seen['failure']) and all(seen['failure']),
          'failure paths: %s, next wait = %s' % (seen['failure'], seen.get('final')), why + '; "max" instead of "min" (or a missing cap) makes the delay jump to / beyond the maximum and traffic resumes late')
+  ctx.ob('C09.R3', f, 'an attempt killed in flight (Close during Open().get()) closes its half-opened sink', bool(seen.get('exit_closes')) and all(seen['exit_closes']),
+         'the GreenletExit handler returns without closing the sink it was opening: the connection is established and pinged for ever after Close()',
+         'after the client is closed no further reconnection attempts are made (and none may stay alive)')
+  ctx.ob('C09.R3', f, 'a sink whose open completed after Close() is not adopted', bool(seen.get('recheck')) and all(seen['recheck']) and bool(seen.get('closed_meanwhile')) and all(seen['closed_meanwhile']),
+         'the success path installs the new sink without re-checking the down mark: when the open result was already set, the "killed" greenlet resumes first, adopts the sink, '
+         'and the closed resurrector keeps reconnecting on every later outage (re-check %s, closed-meanwhile path %s)' % (seen.get('recheck'), seen.get('closed_meanwhile')),
+         'after the client is closed no further reconnection attempts are made')
   ctx.ob('C09.R3', f, 'GreenletExit ends the retry loop', bool(seen['exit']) and all(seen['exit']), 'exit paths: %s' % seen['exit'], 'after Close no further attempts are made')
   init = prog.func(R, 'ResurrectorSink.__init__')
   t = U(init.node).replace(' ', '')
@@ -317,7 +336,13 @@ def balancer_close(ctx):
     tgt = lp.generators[0].target if not isinstance(lp, ast.For) else lp.target
     ifs = lp.generators[0].ifs if not isinstance(lp, ast.For) else [x.test for x in lp.body if isinstance(x, ast.If)]
     body_calls = [c for c in ast.walk(lp) if isinstance(c, ast.Call) and U(c.func) == '%s.channel.Close' % U(tgt)]
-    if U(it).replace(' ', '') in ('self._heap', 'self._heap[1:]', 'self._heap[1:self._size+1]') and body_calls:
+    src = U(it).replace(' ', '')
+    if src in ('self._heap', 'self._heap[1:]', 'self._heap[1:self._size+1]', 'self._heap[:]', 'list(self._heap)', 'tuple(self._heap)', 'list(self._heap[1:])') and body_calls:
       ok = not ifs
       what = 'member channels are closed under the filter %s' % [U(i) for i in ifs] if ifs else ''
+      # closing a channel fails its in-flight requests synchronously; their release re-orders the heap (Swap) under a live iteration:
+      # one node is visited twice and another never
+      snap = src != 'self._heap'
+      ctx.ob('C09.R4', f, 'the members are closed from a snapshot of the heap array', snap,
+             'Close iterates the live self._heap while channel.Close() re-enters the balancer (release of failed in-flight requests swaps heap slots): a member is skipped and keeps its connection and resurrector', why)
   ctx.ob('C09.R4', f, 'closing the balancer closes every member channel, whatever state it reports', ok, what, why)
